@@ -260,6 +260,8 @@ auto kirsch_kfifo_queue<T, Policies...>::do_pop(SuccessFunc successFunc, EmptyFu
   for (;;) {
     // (3) - this acquire-load synchronizes-with the release-CAS (10)
     head_old.acquire(head_, std::memory_order_acquire);
+    // (16) - this seq-cst-fence enforces a total order with the seq-cst-fence (15)
+    XENIUM_THREAD_FENCE(std::memory_order_seq_cst);
     uint64_t idx = 0;
     marked_value old_value;
     bool found_idx = find_index<false>(head_old, idx, old_value);
@@ -313,6 +315,12 @@ bool kirsch_kfifo_queue<T, Policies...>::committed(marked_ptr segment, marked_va
   if (value != segment->items()[index].value.load(std::memory_order_relaxed)) {
     return true;
   }
+
+  // The insertion (2) must be ordered before the loads of deleted/head_ below in the same way the
+  // load of head_ in do_pop is ordered before the scan of the segment (store-load ordering on both
+  // sides): either the pop sees our item, or we see that the segment has become the head segment.
+  // (15) - this seq-cst-fence enforces a total order with the seq-cst-fence (16)
+  XENIUM_THREAD_FENCE(std::memory_order_seq_cst);
 
   const marked_value empty_value(nullptr, value.mark() + 1);
 
